@@ -47,6 +47,7 @@ func checkC06(c *Ctx) {
 		}
 		c06Locks(c, p)
 		c06Once(c, p)
+		checkQuitAlwaysClosed(c, p, "C06-R3")
 		c06Guards(c, p)
 		c06Poll(c, p, "C06-R5")
 		c06Reengage(c, p)
